@@ -497,3 +497,12 @@ Theorem C17_no_ring_of_waiting_goroutines : forall ws : list LockOrder.waiter,
   Forall (LockOrder.justified GenLocksCheck.lk_order_graph) ws -> Forall (fun w => fst w <> []) ws -> ~ LockOrder.ring ws.
 Proof. exact GenLocksProofs.lk_no_ring. Qed.
 Print Assumptions C17_no_ring_of_waiting_goroutines.
+
+(* ---- the running-query table is read and written only under arqMapLock (guarded-by skeletons regenerated from
+   /repo on every run; rule C17.* of GenGuardCheck.gb_rules; the withLock* helpers are entered with the lock held
+   and are checked where they are inlined into their callers). ---- *)
+From SigP Require GenGuardCheck GenGuardProofs.
+Theorem C17_code_running_query_table_touched_only_under_its_lock : forall r : GenGuardCheck.grule,
+  In r GenGuardCheck.c17_grules -> GenGuardCheck.grule_holds r.
+Proof. exact GenGuardProofs.gb_C17_rules_hold. Qed.
+Print Assumptions C17_code_running_query_table_touched_only_under_its_lock.
